@@ -14,6 +14,29 @@ fn find_node<'a>(root: &N<'a>, range: &std::ops::Range<usize>, kind: &str) -> Op
   root.dfs().find(|n| n.range() == *range && n.kind() == kind)
 }
 
+/// C02's premise: the pattern has the same tree shape as the node, holes exactly over the abstracted ranges
+pub fn premise_holds(pat: &Pattern<SupportLang>, node: &N, cut: &Cut) -> bool {
+  let mut bounds = vec![];
+  if !shape(&pat.node, node, &mut bounds) {
+    return false;
+  }
+  let mut singles: Vec<(String, std::ops::Range<usize>)> = vec![];
+  let mut multi = None;
+  for b in bounds {
+    match b {
+      Bound::Single { name, range, named } => {
+        if !named {
+          return false;
+        }
+        singles.push((name, range))
+      }
+      Bound::Multi { name, ranges } => multi = Some((name, ranges)),
+    }
+  }
+  singles.sort_by_key(|x| x.1.start);
+  singles == cut.singles && multi == cut.multi
+}
+
 /// returns (premise held, non-trivial)
 pub fn check_cut(lang: SupportLang, lname: &str, fname: &str, src: &str, node: &N, cut: &Cut, rep: &mut Report) -> (bool, bool) {
   let replay = json!({"monitor":"c02","lang":lname,"file":fname,"source":src,"pattern":cut.pattern,
